@@ -632,13 +632,25 @@ class Mat:
         raise TypeError("CasADi matrix types are not iterable")
 
     # ---- arithmetic --------------------------------------------------------------------
-    def __add__(self, o): return _binary(self, o, e_add, "(x+y)")
+    def __add__(self, o):
+        if type(o).__name__ == "LVec":
+            return NotImplemented
+        return _binary(self, o, e_add, "(x+y)")
     def __radd__(self, o): return _binary(o, self, e_add, "(x+y)")
-    def __sub__(self, o): return _binary(self, o, e_sub, "(x-y)")
+    def __sub__(self, o):
+        if type(o).__name__ == "LVec":
+            return NotImplemented
+        return _binary(self, o, e_sub, "(x-y)")
     def __rsub__(self, o): return _binary(o, self, e_sub, "(x-y)")
-    def __mul__(self, o): return _binary(self, o, e_mul, "(x*y)")
+    def __mul__(self, o):
+        if type(o).__name__ == "LVec":
+            return NotImplemented
+        return _binary(self, o, e_mul, "(x*y)")
     def __rmul__(self, o): return _binary(o, self, e_mul, "(x*y)")
-    def __truediv__(self, o): return _binary(self, o, e_div, "(x/y)")
+    def __truediv__(self, o):
+        if type(o).__name__ == "LVec":
+            return NotImplemented
+        return _binary(self, o, e_div, "(x/y)")
     def __rtruediv__(self, o): return _binary(o, self, e_div, "(x/y)")
     def __pow__(self, o): return _binary(self, o, e_pow, "pow(x,y)")
     def __rpow__(self, o): return _binary(o, self, e_pow, "pow(x,y)")
@@ -832,6 +844,11 @@ def _from_nested(v):
 
 
 class DM(Mat):
+    def __new__(cls, *args):
+        if len(args) == 1 and type(args[0]).__name__ == "LVec":
+            return args[0]            # vectors of symbolic length are not copied
+        return object.__new__(cls)
+
     def __init__(self, *args):
         self._deps = None
         self._name = None
@@ -897,6 +914,11 @@ def _filled(cls, a, v):
 
 
 class MX(Mat):
+    def __new__(cls, *args):
+        if len(args) == 1 and type(args[0]).__name__ == "LVec":
+            return args[0]
+        return object.__new__(cls)
+
     def __init__(self, *args):
         self._deps = None
         self._name = None
@@ -1012,6 +1034,24 @@ class LVec:
             return LVec(unwrap_int(hi - lo), lambda j, lo=lo, g=g: g(unwrap_int(j + lo)), self.row)
         return MX._raw(1, 1, [entry(self.get(self._norm(k)))])
 
+    def _ew(self, o, f, swap=False):
+        if isinstance(o, LVec):
+            g2 = o.get
+            return LVec(self.n, (lambda k, g=self.get, g2=g2: f(entry(g2(k)), entry(g(k))) if swap else f(entry(g(k)), entry(g2(k)))), self.row)
+        o = _coerce(o)
+        if o.numel() != 1:
+            raise Undecided("LVec arithmetic with a non-scalar")
+        v = o.e[0]
+        return LVec(self.n, (lambda k, g=self.get: f(v, entry(g(k))) if swap else f(entry(g(k)), v)), self.row)
+
+    def __add__(self, o): return self._ew(o, e_add)
+    def __radd__(self, o): return self._ew(o, e_add, True)
+    def __sub__(self, o): return self._ew(o, e_sub)
+    def __rsub__(self, o): return self._ew(o, e_sub, True)
+    def __mul__(self, o): return self._ew(o, e_mul)
+    def __rmul__(self, o): return self._ew(o, e_mul, True)
+    def __truediv__(self, o): return self._ew(o, e_div)
+
     def __repr__(self):
         return "LVec(n=%s)" % (self.n,)
 
@@ -1064,8 +1104,29 @@ def horzcat(*args):
     return cls._raw(r, sum(m.cols for m in keep), e)
 
 
-def vcat(args): return vertcat(*list(args))
-def hcat(args): return horzcat(*list(args))
+def _symlist(args):
+    from vc.symlist import SymList
+    return isinstance(args, SymList) and isinstance(unwrap_int(args.length), SymInt)
+
+
+def vcat(args):
+    if _symlist(args):
+        return LVec(args.length, lambda k, a=args: _scalar_entry(a[k]), row=False)
+    return vertcat(*list(args))
+
+
+def hcat(args):
+    if _symlist(args):
+        return LVec(args.length, lambda k, a=args: _scalar_entry(a[k]), row=True)
+    return horzcat(*list(args))
+
+
+def _scalar_entry(v):
+    if isinstance(v, Mat):
+        if v.numel() != 1:
+            raise Undecided("concatenation of a symbolic number of non-scalar blocks")
+        return v.e[0]
+    return entry(v)
 
 
 def veccat(*args):
@@ -1081,6 +1142,8 @@ def vvcat(args): return veccat(*list(args))
 
 
 def vec(a):
+    if isinstance(a, LVec):
+        return LVec(a.n, a.get, row=False)
     a = _coerce(a)
     return a._new(a.numel(), 1, a.e)
 
@@ -1223,7 +1286,23 @@ def vertsplit(a, *arg):
 
 def linspace(a, b, n):
     a, b = _coerce(a), _coerce(b)
-    n = int(unwrap_int(n))
+    n = unwrap_int(n)
+    if isinstance(n, SymInt):
+        if a.numel() != 1 or b.numel() != 1:
+            raise Undecided("linspace on non-scalars")
+        x0, x1 = a.e[0], b.e[0]
+        step = e_div(e_sub(x1, x0), entry(n - 1))
+        def get(i, x0=x0, x1=x1, step=step, n=n):
+            i = unwrap_int(i)
+            if isinstance(i, int) and i == 0:
+                return x0
+            if i == 0:
+                return x0
+            if i == n - 1:
+                return x1
+            return e_add(x0, e_mul(entry(i), step))
+        return LVec(n, get, row=False)
+    n = int(n)
     cls = _result_cls(a, b)
     if a.shape != b.shape:
         if a.numel() == 1:
